@@ -18,8 +18,10 @@ CLAIMED = {
     text="Deductive: same contracts as C04; the client loop's invariant states, for every endpoint, that it has received the message exactly "
          "once iff it is a registered client other than the sender whose policy for the message's device lets the message kind through "
          "(Never/unset: all but setBLOBVector; Also: all; Only: setBLOBVector only), with policy an abstract view of blob_routing. "
-         "register/unregister/enableBLOB are proved to change exactly one client's row / one cell (frame), so one client's or device's policy never affects another.",
-    note="As C04. The oracle (direction table, payload kind, lets_through) is written from the statement, not from the code.",
+         "register/unregister/enableBLOB are proved to change exactly one client's row / one cell (frame), so one client's or device's policy never affects another. "
+         "The endpoint contract that loop relies on is discharged on the shipped server-side client endpoints (tcp and tty ConnectionHandler.message_from_device: "
+         "raises nothing, awaits nothing, calls no router mutator, does not re-enter the router, does not close the connection; construction registers exactly once).",
+    note="As C04; the endpoint contract stays assumed for user-written endpoints and SnoopingClient. The oracle (direction table, payload kind, lets_through) is written from the statement, not from the code.",
     technique="contract-based deductive verification: VCs generated from the real AST by symbolic execution with loop invariants, discharged by z3 (E-matching), counter-models replayed natively",
     design="4 C04/C05"),
  "C09": dict(
